@@ -35,34 +35,21 @@ def replay (env : Env) (input : Bytes) (move : Int) (color : Color) : R Pos :=
   | .error e => .error e
   | .ok f => positionAtMove env f move color
 
-/-- the only failure of `replay` that is not an error value is a `hang` that `Position.Move` itself
-reported (the fuel of its flood fill, `Impl/Bitboard.lean`, whose sufficiency is not proved here) -/
-theorem replay_errors (env : Env) (hpm : ∀ b, Graceful (env.parseMove b)) (htps : ∀ b, Graceful (env.parseTPS b))
-    (input : Bytes) (move : Int) (color : Color) (e : Err) (he : replay env input move color = .error e) :
-    (∃ w, e = .illegal w) ∨ (∃ s p m, e = .hang s ∧ Pos.apply env.basis p m = .error (.hang s)) := by
+/-- Replaying any byte string returns a position or an error value: no panic in the parser, in
+`InitialPosition`, in the iterator (nil position, `Position.Move`), whatever position and moves the file
+describes; and every loop ends — the `PositionAtMove` loop within `len(Ops)+2` rounds, `Position.Move`'s
+flood fill within its fuel (`Roads.analyze_ne_none`). -/
+theorem replay_total (env : Env) (hpm : ∀ b, Graceful (env.parseMove b)) (htps : ∀ b, Graceful (env.parseTPS b)) :
+    ∀ (input : Bytes) (move : Int) (color : Color), Graceful (replay env input move color) := by
+  intro input move color e he
   unfold replay at he
   split at he
   · rename_i e' hp
     cases he
-    left; exact parsePTN_graceful env hpm input _ hp
-  · exact positionAtMove_errors env htps _ move color e he
-
-/-- Replaying any byte string never panics: not in the parser, not in `InitialPosition`, not in the
-iterator (nil position, `Position.Move`), whatever position and moves the file describes.
-In particular the `PositionAtMove` loop always ends (its fuel `len(Ops)+2` suffices). -/
-theorem replay_total (env : Env) (hpm : ∀ b, Graceful (env.parseMove b)) (htps : ∀ b, Graceful (env.parseTPS b)) :
-    ∀ (input : Bytes) (move : Int) (color : Color), NoPanic (replay env input move color) := by
-  intro input move color s hs
-  rcases replay_errors env hpm htps input move color _ hs with ⟨w, hw⟩ | ⟨s', _, _, hw, _⟩ <;> cases hw
-
-/-- with the flood fill of `Position.Move` total (`hflood`), replay returns a value or an error -/
-theorem replay_total_graceful (env : Env) (hpm : ∀ b, Graceful (env.parseMove b)) (htps : ∀ b, Graceful (env.parseTPS b))
-    (hflood : ∀ p m s, Pos.apply env.basis p m ≠ .error (.hang s)) :
-    ∀ (input : Bytes) (move : Int) (color : Color), Graceful (replay env input move color) := by
-  intro input move color e he
-  rcases replay_errors env hpm htps input move color e he with h | ⟨s, p, m, _, hpm'⟩
-  · exact h
-  · exact absurd hpm' (hflood p m s)
+    exact parsePTN_graceful env hpm input _ hp
+  · rcases positionAtMove_errors env htps _ move color e he with h | ⟨s, p, m, _, hpm'⟩
+    · exact h
+    · exact absurd hpm' (apply_noHang _ p m s)
 
 /-- every `Next` call from a state the iterator can be in keeps that state well-formed and does not panic -/
 theorem next_total (env : Env) (it : Iter) (hinv : it.Inv) :
